@@ -60,18 +60,49 @@ pub const SABOTAGE: &[&str] = &[
     "eval('var hoisted=1; function ev(){ return 2; }'); new Function('globalThis.viaFn=3')(); Object.freeze(globalThis); Object.preventExtensions(Object.prototype);",
 ];
 
+/// Cross-realm behaviour probe, evaluated in realm 2 against objects created in realm 1. The expected
+/// answers follow the specification (ArraySpeciesCreate discards a foreign realm's %Array%,
+/// SpeciesConstructor / TypedArraySpeciesCreate follow the exemplar's constructor,
+/// GetPrototypeFromConstructor falls back to the constructor's own realm, iterator results and
+/// errors are created in the realm of the function that creates them, BoundFunctionCreate copies the
+/// target's prototype); they were cross-checked at authoring time with V8's `vm` contexts.
 const REALM_PROBE: &str = r#"
 (function(){ var r=[]; function t(f){ try { r.push(String(f())); } catch(e){ r.push('!'+e.name); } }
-t(function(){ return fromOther.arr instanceof Array; }); t(function(){ return Array.isArray(fromOther.arr); }); t(function(){ return Object.getPrototypeOf(fromOther.arr)===Array.prototype; });
-t(function(){ return fromOther.arr.map(function(x){ return x*2; }).join(','); }); t(function(){ return fromOther.fn(2) instanceof Array; }); t(function(){ return fromOther.fn(2).length; });
+var A=fromOther.arr;
+t(function(){ return A instanceof Array; }); t(function(){ return Array.isArray(A); }); t(function(){ return Object.getPrototypeOf(A)===Array.prototype; });
+t(function(){ return A.map(function(x){ return x; }) instanceof Array; });
+t(function(){ return Array.prototype.map.call(A, function(x){ return x; }) instanceof Array; });
+t(function(){ return Array.prototype.filter.call(A, function(){ return true; }) instanceof Array; });
+t(function(){ return Array.prototype.slice.call(A, 0) instanceof Array; });
+t(function(){ return Array.prototype.splice.call(A.slice(), 0, 1) instanceof Array; });
+t(function(){ return Array.prototype.concat.call(A, [4]) instanceof Array; });
+t(function(){ return Array.prototype.flat.call(A) instanceof Array; });
+t(function(){ return Array.prototype.flatMap.call(A, function(x){ return x; }) instanceof Array; });
+t(function(){ return Array.prototype.concat.call([0], A).length; });
+t(function(){ return Array.from(A) instanceof Array; }); t(function(){ return [...A].length; });
+t(function(){ return Array.prototype.map.call(fromOther.sub, function(x){ return x; }) instanceof Array; });
+t(function(){ return fromOther.fn(2) instanceof Array; }); t(function(){ return fromOther.fn(2).length; });
 t(function(){ try { fromOther.thrower(); } catch(e){ return [e instanceof TypeError, e.constructor.name, Object.getPrototypeOf(e)===TypeError.prototype].join('/'); } });
-t(function(){ return fromOther.err instanceof Error; }); t(function(){ return fromOther.err.constructor===Error; }); t(function(){ return fromOther.inst.hello(); }); t(function(){ return fromOther.inst instanceof Object; });
-t(function(){ return fromOther.p instanceof Promise; }); t(function(){ return typeof fromOther.p.then; }); t(function(){ return Object.prototype.toString.call(fromOther.arr); }); t(function(){ return fromOther.sym===Symbol.for('shared-across-realms'); });
+t(function(){ return fromOther.err instanceof Error; }); t(function(){ return fromOther.err.constructor===Error; }); t(function(){ return Object.prototype.toString.call(fromOther.err); });
+t(function(){ return fromOther.inst.hello(); }); t(function(){ return fromOther.inst instanceof Object; });
+t(function(){ return fromOther.p instanceof Promise; }); t(function(){ return Promise.resolve(fromOther.p)===fromOther.p; }); t(function(){ return Promise.prototype.then.call(fromOther.p, function(){}) instanceof Promise; });
+t(function(){ return Object.prototype.toString.call(A); }); t(function(){ return fromOther.sym===Symbol.for('shared-across-realms'); });
+t(function(){ return RegExp.prototype.exec.call(fromOther.re, 'xab')[1]; }); t(function(){ return 'xab'.replace(fromOther.re, '[$1]'); }); t(function(){ return fromOther.re instanceof RegExp; }); t(function(){ return 'abab'.split(fromOther.re) instanceof Array; });
+t(function(){ return Map.prototype.get.call(fromOther.map, 1); }); t(function(){ return new Map(fromOther.map).size; }); t(function(){ return fromOther.map instanceof Map; });
+t(function(){ return Uint8Array.prototype.slice.call(fromOther.ta, 0) instanceof Uint8Array; }); t(function(){ return Array.prototype.slice.call(fromOther.ta).join(''); }); t(function(){ return new Uint8Array(fromOther.ta).length; });
+t(function(){ return fromOther.bound(); }); t(function(){ return new fromOther.NoProto() instanceof Object; }); t(function(){ return Object.getPrototypeOf(Reflect.construct(fromOther.NoProto, [], Object))===Object.prototype; });
+t(function(){ return Date.prototype.getTime.call(fromOther.date); }); t(function(){ return fromOther.date instanceof Date; }); t(function(){ return JSON.stringify({d:fromOther.date, a:A}); });
+t(function(){ return fromOther.gen.next().value; }); t(function(){ return Object.getPrototypeOf(fromOther.gen.next())===Object.prototype; });
+t(function(){ return Function.prototype.call.call(fromOther.fn, null, 1).length; }); t(function(){ return fromOther.fn instanceof Function; }); t(function(){ return typeof fromOther.fn.bind(null); });
+t(function(){ return Object.getPrototypeOf(fromOther.fn.bind(null))===Function.prototype; });
 print('realm-probe', r.join(' ')); })();
 "#;
 
+const REALM_PROBE_EXPECTED: &str = "realm-probe false true false false true true true true true true true 4 true 3 false false 2 false/TypeError/false false false [object Error] hello from r1 false false false false [object Array] true b x[b] false false 2 1 false false 312 3 bound-r1 false true 0 false {\"d\":\"1970-01-01T00:00:00.000Z\",\"a\":[1,[2],3]} 1 false 1 false function false";
+
 const REALM_GIFT: &str = r#"
-globalThis.gift={ arr:[1,2,3], fn:function(n){ return new Array(n).fill(0); }, thrower:function(){ null.x; }, err:new Error('from-r1'), inst:new (class Greeter { hello(){ return 'hello from r1'; } })(), p:Promise.resolve(1), sym:Symbol.for('shared-across-realms') };
+globalThis.gift={ arr:[1,[2],3], fn:function(n){ return new Array(n).fill(0); }, thrower:function(){ null.x; }, err:new Error('from-r1'), inst:new (class Greeter { hello(){ return 'hello from r1'; } })(), p:Promise.resolve(1), sym:Symbol.for('shared-across-realms'),
+  re:/a(b)/g, map:new Map([[1,2]]), ta:new Uint8Array([3,1,2]), bound:(function(){ return this.tag; }).bind({tag:'bound-r1'}), NoProto:(function(){ function F(){} F.prototype=1; return F; })(), date:new Date(0), gen:(function*(){ yield 1; })(), sub:(function(){ class A extends Array {} return A.from([1,2]); })() };
 "#;
 
 pub fn generate(rng: &mut Rng, tier: Tier) -> Value {
@@ -315,7 +346,7 @@ fn run_realms(sc: &Scenario, sabotage: bool, rep: &mut RunReport) -> Vec<String>
     // whatever realm 2 did to its own built-ins, realm 1's objects behave as before
     log.push(format!(
         "after {}",
-        eval_in(&mut ctx, &r1, "print('r1-still', gift.arr.map(function(x){ return x+1; }).join(','), gift.fn(2).length, gift.inst.hello(), [3,1,2].sort().join(''), JSON.stringify({a:[1]}), typeof Promise.resolve, String(Symbol('q')), Object.keys({k:1}).join(''));")
+        eval_in(&mut ctx, &r1, "print('r1-still', gift.arr.map(function(x){ return x+1; }).join(';'), gift.fn(2).length, gift.inst.hello(), [3,1,2].sort().join(''), JSON.stringify({a:[1]}), typeof Promise.resolve, String(Symbol('q')), Object.keys({k:1}).join(''));")
     ));
     log.extend(h1.trace.take());
     log
@@ -397,7 +428,7 @@ pub fn execute(v: &Value) -> RunReport {
                     format!("{}: item {at}: calm {:?}, with the other realm sabotaging itself {:?}", sc.name, c2.get(at), s2.get(at)),
                 );
             }
-            let expected_probe = "realm-probe false true false 2,4,6 false 2 false/TypeError/false false false hello from r1 false false function [object Array] true";
+            let expected_probe = REALM_PROBE_EXPECTED;
             if let Some(p) = calm.iter().find(|l| l.starts_with("realm-probe")) {
                 if p != expected_probe {
                     rep.violate("cross-realm-behaviour", format!("{}: {p:?}, expected {expected_probe:?}", sc.name));
